@@ -30,6 +30,8 @@ type C03Case struct {
 	// then fails; "errval": fills the whole record and fails). The statement then only applies if the reply is a Success
 	// response all the same: it must still be exactly the user's data.
 	Fault string `json:"fault,omitempty"`
+	// FaultOp: the storage operation that misbehaves ("" = the user lookup)
+	FaultOp string `json:"fault_op,omitempty"`
 }
 
 var timeFormats = []string{"", "", time.RFC3339, "2006-01-02T15:04:05.000000000Z", "2006-01-02T15:04:05Z", time.RFC3339Nano}
@@ -64,7 +66,8 @@ func genC03Case(t *rapid.T) C03Case {
 		relay = bigString(rapid.SampledFrom([]int{1500, 9000}).Draw(t, "relaylen"), relay)
 	}
 	req := world.RequestSpec{ID: "stored-c03", AppID: appID, RelayState: relay, ACS: acsURL, Binding: binding,
-		AuthRequestID: xt.LegalString(4).Draw(t, "authreqid"), UserID: u.UserID, Done: true}
+		AuthRequestID: xt.LegalString(4).Draw(t, "authreqid"), UserID: u.UserID, Done: true,
+		Issuer: rapid.SampledFrom([]string{"", "https://issuer-stated-in-the-request.example/metadata", stdSP(0).EntityID}).Draw(t, "storedissuer")}
 	spec := world.Spec{IdP: idp, SPs: []world.SPSpec{stdSP(0)}, Users: []world.UserSpec{u, stdUser(1)},
 		Apps: map[string]string{appID: genNonEmptyLegal(t, "audience", 5), "other-app": "https://other-audience.example"}, Requests: []world.RequestSpec{req}}
 	c := C03Case{Noise: rapid.IntRange(0, 1).Draw(t, "noise") == 0, Spec: spec, Host: rapid.SampledFrom(reqHosts).Draw(t, "host"), Method: rapid.SampledFrom([]string{"GET", "POST"}).Draw(t, "method")}
@@ -73,6 +76,10 @@ func genC03Case(t *rapid.T) C03Case {
 	}
 	if rapid.IntRange(0, 7).Draw(t, "faulty") == 0 {
 		c.Fault = rapid.SampledFrom([]string{"error", "partial", "errval"}).Draw(t, "fault")
+		if rapid.IntRange(0, 2).Draw(t, "faultop") == 0 {
+			// the application-to-entity lookup fails (with or without handing a value back)
+			c.FaultOp, c.Fault = "GetEntityIDByAppID", rapid.SampledFrom([]string{"error", "timeout", "errval"}).Draw(t, "fault2")
+		}
 	}
 	return c
 }
@@ -327,7 +334,11 @@ func TestC03(t *testing.T) {
 			hr = obs.HTTPReq{Method: "POST", Path: c.Spec.IdP.Route("callback"), ContentType: "application/x-www-form-urlencoded", Body: "id=" + qesc(req.ID), Host: c.Host, Headers: c.Headers}
 		}
 		if c.Fault != "" {
-			w.Store.SetFaults([]world.Fault{{Op: "SetUserinfoWithUserID", Occurrence: 0, Kind: c.Fault}})
+			op := c.FaultOp
+			if op == "" {
+				op = "SetUserinfoWithUserID"
+			}
+			w.Store.SetFaults([]world.Fault{{Op: op, Occurrence: 0, Kind: c.Fault}})
 		}
 		t0 := time.Now()
 		rep := obs.Do(w.Handler, hr)
